@@ -54,8 +54,8 @@ DeliverTags(pre, c, e) ==
         same    == /\ Footprint(post) = Footprint(want)
                    /\ (mcls # "replay" => post.rest = pre.rest)
                    /\ ok = (mcls = "ok")
-        \* attribution: the window / index decisions belong to C31 as well
-        timing  == (tx.kind = "claim" /\ (mcls \in {"mature", "height"} \/ (mcls = "ok" /\ ~ok)))
+        \* attribution: the END of the claim window and the index decisions belong to C31 as well
+        timing  == (tx.kind = "claim" /\ mcls = "mature")
                    \/ (tx.kind = "proof" /\ (mcls \in {"index", "internal"} \/ (mcls = "ok" /\ ~ok)))
         \* ---- statements of the properties themselves, on the real outcome
         S  == tx.sessionH
